@@ -26,7 +26,7 @@ from harness import isimip_corr as IC
 from harness import probes
 
 PROP = "C02"
-TARGETS = ["IbicusModel.Props.C02"]
+TARGETS = ["IbicusModel.Props.C02", "IbicusModel.Lemmas.GenDebiasers"]  # the audit imports both
 GEN = ["Debiasers"]
 
 SHIFTS = [0.5, -0.5, 3.0, -3.0, 1e3, -1e3]
@@ -323,19 +323,31 @@ def run(tier, res, force_search=False):
         "deterministic configurations only",
     ]
     lean_ok = C.lean_phase(res, PROP, GEN, TARGETS)
+    if tier != "quick" and lean_ok:  # thorough: re-check the compiled declarations with the external kernel
+        import fcntl
+
+        mods = ["IbicusModel.Props.C02", "IbicusModel.Lemmas.C02Mean", "IbicusModel.Lemmas.C02Shift", "IbicusModel.Lemmas.C02Isimip",
+                "IbicusModel.Lemmas.C02Lift", "IbicusModel.Lemmas.StatsAffine"]
+        with open(C.LOCK, "w") as lk:
+            fcntl.flock(lk, fcntl.LOCK_SH)
+            rc, log = C._run(["lake", "env", "leanchecker"] + mods)
+        res.extra["leanchecker"] = "ok" if rc == 0 else f"rc={rc}: {log[-300:]}"
+        if rc != 0:
+            res.tie_broken.append("leanchecker rejects the property modules: " + log[-300:])
+            lean_ok = False
 
     # ---- tier B: the shared correspondence modules, modest budget
     quick = tier == "quick"
-    mm = DC.correspondence(rng, 14 if quick else 160, tier, res, families=DEB_FAMILIES)
+    mm = DC.correspondence(rng, 14 if quick else 260, tier, res, families=DEB_FAMILIES)
     if mm:
         res.tie_broken.append(f"correspondence DrvDebiasers: {len(mm)} mismatches, first: {str(mm[0])[:600]}")
-    mi = IC.correspondence(rng, 28 if quick else 280, tier, res, configs=ISI_CONFIGS)
+    mi = IC.correspondence(rng, 28 if quick else 350, tier, res, configs=ISI_CONFIGS)
     if mi:
         res.tie_broken.append(f"correspondence DrvIsimip: {len(mi)} mismatches, first: {str({k: v for k, v in mi[0].items() if k != 'line'})[:600]}")
     res.extra["mismatches"] = {"debiasers": mm[:5], "isimip": [{k: v for k, v in m.items() if k != "line"} for m in mi[:5]]}
 
     # ---- the property's oracle on the real code
-    n_or = 39 if quick else 390
+    n_or = 39 if quick else 650
     if force_search or not lean_ok or mm or mi:
         n_or *= 3
     problems = []
